@@ -21,6 +21,12 @@ impl Flock {
             .open(lock_path)?;
 
         match crate::sys::unix::try_lock_exclusive(&lock_fd) {
+            #[cfg(nomt_verif)]
+            Ok(_) => {
+                crate::verif::post(crate::verif::Kind::Lock, std::os::fd::AsRawFd::as_raw_fd(&lock_fd));
+                Ok(Self { lock_fd })
+            }
+            #[cfg(not(nomt_verif))]
             Ok(_) => Ok(Self { lock_fd }),
             Err(e) => {
                 anyhow::bail!("Failed to lock directory: {e}");
@@ -31,6 +37,8 @@ impl Flock {
 
 impl Drop for Flock {
     fn drop(&mut self) {
+        #[cfg(nomt_verif)]
+        let _ = crate::verif::pre(crate::verif::Kind::Unlock, std::os::fd::AsRawFd::as_raw_fd(&self.lock_fd), 0, 0, None);
         if let Err(e) = crate::sys::unix::unlock(&self.lock_fd) {
             eprintln!("Failed to unlock directory lock: {e}");
         }
